@@ -1,4 +1,6 @@
-CONSTANTS MaxArity = 3 Len3 = 2 UnkLen2 = 2 UnkLen3 = 1 CallArity = 1
+CONSTANTS MaxArity = 3 Len3 = 2 Len3x = 2 Len3Kinds = {"free", "member", "struct", "variant"}
+  UnkLen2 = 2 UnkLen3 = 1 CallArity = 1
+  Defaults3 = {{}, {2, 3}, {1, 3}, {1, 2, 3}}
 INIT Init
 NEXT Next
 INVARIANT Emit
